@@ -1,7 +1,7 @@
 (* C07 / C01 — pins of the combinator layer: the winnow-level model of chronobox_fifo (Codec/ChronoWinnow.v,
    transcribed combinator by combinator over Codec/Winnow.v = winnow 0.6.1 semantics) equals the recursive
    model Codec/Chrono.v:cb_fifo that all other C07 theorems are about.  Statements only; to be imported into
-   Props/C07.v (C07_cbw_*) and Props/C01.v (C01_cbw_*). *)
+   Props/C07.v (the C07_cbw_ theorems) and Props/C01.v (the C01_cbw_ theorems). *)
 From AG Require Import Base.Prelude Base.Bytes Codec.Winnow Codec.Chrono Codec.ChronoWinnow
   Codec.ChronoWinnow_proofs.
 
